@@ -43,7 +43,9 @@ CLAIM = dict(
          'the same argument objects (bit-identical afterwards), the sweep made by hand with in-place resp. copying single '
          'steps (+ core_stab) equals orthogonalize (cores to 1e-12, p exactly). SCALES / degenerate shapes: one core at '
          '2^+-(400..480) with and without use_stab (correspondence and search), a zero core at every position, mode size 1 '
-         'at the pivot, rank 1, d = 1, d = 2, pivots at both ends; subnormal inputs are NOT generated (their products lose '
+         'at the pivot, rank 1, d = 1, d = 2, pivots at both ends; nearly orthonormal inputs (an orthogonalised tensor with '
+         'relative noise 1e-6 .. 1e-10 or after a float32 round trip) with the Gram matrices and the norm on the pivot checked '
+         'at 1e-12; subnormal inputs are NOT generated (their products lose '
          'bits, the 1e-9 reference comparison does not apply).',
     note='Trusted: Coq kernel, vm_compute for case evaluation, the hand-written model (validated by the correspondence), '
          'the oracle contracts qr_ok / rq_ok / ilog2k_ok (validated on every recorded call; np.log2 meets the log2 '
@@ -743,7 +745,8 @@ def verify_orth(Y, scales, r, kk, stab, lo=False):
     """every clause of the property for the result r of orthogonalize(Y, kk, use_stab=stab); Y: the cores as handed over
     (saved copy), carrying the power-of-two scales [scales] corewise"""
     Y0 = [np.asarray(G, dtype=float) * 2.0 ** -s for G, s in zip(Y, scales)]
-    tg, td = (2e-4, 2e-4) if lo else (1e-10, 1e-9)
+    tg, td = (2e-4, 2e-4) if lo else (1e-12, 1e-9)
+    tnrm = 2e-4 if lo else 1e-12
     d = len(Y)
     if stab:
         if not (isinstance(r, tuple) and len(r) == 2):
@@ -802,12 +805,12 @@ def verify_orth(Y, scales, r, kk, stab, lo=False):
         # the pivot core carries the norm
         nz = float(np.linalg.norm((np.asarray(Z[kk], dtype=float) * 2.0 ** (shift if abs(shift) <= 1000 else 0)).ravel()))
         ny = float(np.linalg.norm(D0.ravel()))
-        if abs(nz - ny) > td * ny + nat + 1e-290:
+        if abs(nz - ny) > tnrm * ny + nat + 1e-290:
             return ('the pivot core does not carry the Frobenius norm', nz, ny)
     if stab:
         for m in range(d):
             mx = float(np.max(np.abs(Z[m])))
-            if m != kk and mx > 1 + tg:
+            if m != kk and mx > 1 + max(tg, 1e-10):
                 return (f'entry of non-pivot core {m} larger than 1 with use_stab', mx, 1.0)
         if d >= 2:
             mx = float(np.max(np.abs(Z[kk])))
@@ -901,7 +904,7 @@ def check_step(tn, Y, side, i, inplace, form=None):
     """property oracle for the single steps; Y is the built argument (see build)"""
     form = norm_form(form)
     lo = has_f32(form)
-    tg, td = (2e-4, 2e-4) if lo else (1e-10, 1e-9)
+    tg, td = (2e-4, 2e-4) if lo else (1e-12, 1e-9)
     snap = [G.copy() for G in Y]
     f = tn.orthogonalize_left if side == 'left' else tn.orthogonalize_right
     iw = wrap_k(i, form['kform'])
@@ -1009,6 +1012,33 @@ def in_known_family(inp):
         if e + math.log2(max(Y0[j].shape[2], 1)) + 1 >= 1023 or e <= -1022:
             return True
     return False
+
+
+def np_orth(Y, k):
+    """reference orthogonalisation with plain numpy (independent of teneva): left-orthonormal cores before k,
+    right-orthonormal cores after k"""
+    Z = [np.array(G, dtype=float) for G in Y]
+    d = len(Z)
+    for i in range(k):
+        r1, n, r2 = Z[i].shape
+        Q, Rm = np.linalg.qr(Z[i].reshape(r1 * n, r2))
+        Z[i] = Q.reshape(r1, n, -1)
+        Z[i + 1] = np.tensordot(Rm, Z[i + 1], 1)
+    for i in range(d - 1, k, -1):
+        r1, n, r2 = Z[i].shape
+        Q, Rm = np.linalg.qr(Z[i].reshape(r1, n * r2).T)
+        Z[i] = Q.T.reshape(-1, n, r2)
+        Z[i - 1] = np.tensordot(Z[i - 1], Rm.T, 1)
+    return Z
+
+
+def nearly_orthonormal(rng, Y, k0, eps):
+    """an orthogonalised tensor whose cores are ALMOST orthonormal: relative noise eps, or (eps = 'f32') the float32
+    round trip of the cores"""
+    Z = np_orth(Y, k0)
+    if eps == 'f32':
+        return [G.astype(np.float32).astype(float) for G in Z]
+    return [G * (1.0 + eps * np.array([rng.uniform(-1, 1) for _ in range(G.size)]).reshape(G.shape)) for G in Z]
 
 
 def shrink(tn, inp, budget=80):
@@ -1146,6 +1176,18 @@ def search(R, ctx, deep, hints):
                     cand.append(['left', D1, scales, k, True, base])
                 if k > 0:
                     cand.append(['right', D1, scales, k, False, base])
+        # (g) NEARLY ORTHONORMAL input: an orthogonalised tensor with relative noise 1e-6 .. 1e-10 or after a float32 round
+        #     trip; the result of a QR is orthonormal to machine precision whatever the input (Gram / norm at 1e-12)
+        if t % 3 == 0 and not any(scales) and fam not in ('int', 'zero', 'alias', 'd1'):
+            k0 = rng.randrange(d)
+            for eps in (1e-6, 1e-8, 1e-9, 1e-10, 'f32'):
+                Dn = tt_desc(nearly_orthonormal(rng, Y0, k0, eps))
+                for k in range(d):
+                    cand.append(['orthogonalize', Dn, scales, k, bool(k % 2), base])
+                for i in range(d - 1):
+                    cand.append(['left', Dn, scales, i, bool(i % 2), base])
+                for i in range(1, d):
+                    cand.append(['right', Dn, scales, i, bool(i % 2), base])
         # (d) rejection, every pivot type
         if t % 4 == 0:
             for kf in KFORMS:
@@ -1181,7 +1223,8 @@ def search(R, ctx, deep, hints):
                               'array object several times in the list, list / tuple; histories: chains of calls on the own '
                               'result (idempotence), repeated calls on the same objects, sweeps by hand with in-place / '
                               'copying steps = orthogonalize; a single core at 2^+-(400..480), a zero core at every position, '
-                              'mode size 1 at the pivot',
+                              'mode size 1 at the pivot; nearly orthonormal inputs (orthogonalised tensor + relative noise 1e-6 .. 1e-10 / float32 '
+                              'round trip), Gram and norm on the pivot at 1e-12',
                          evaluations=n_eval, failures=len(fails) - n_known, known_finding_cases=n_known, deep=deep))
     return fails
 
